@@ -257,6 +257,8 @@ pub struct St {
     pub size: u64,
     pub nlink: u64,
     pub rdev: u64,
+    pub mtime_s: i64,
+    pub mtime_ns: i64,
 }
 
 impl St {
@@ -299,6 +301,8 @@ fn conv_stat(st: &libc::stat) -> St {
         size: st.st_size as u64,
         nlink: st.st_nlink as u64,
         rdev: st.st_rdev as u64,
+        mtime_s: st.st_mtime as i64,
+        mtime_ns: st.st_mtime_nsec as i64,
     }
 }
 
